@@ -361,7 +361,7 @@ func (t *ImmutableTree) getRangeProof(keyStart, keyEnd []byte, limit int) (proof
 	_stop := false
 	if limit == 1 {
 		_stop = true // case 1
-	} else if keyEnd != nil && bytes.Compare(cpIncr(left.key), keyEnd) >= 0 {
+	} else if keyEnd != nil && startOK && bytes.Compare(cpIncr(left.key), keyEnd) >= 0 {
 		_stop = true // case 2
 	}
 	if _stop {
@@ -372,7 +372,9 @@ func (t *ImmutableTree) getRangeProof(keyStart, keyEnd []byte, limit int) (proof
 	}
 
 	// Get the key after left.key to iterate from.
-	afterLeft := cpIncr(left.key)
+	// (the immediate successor, not cpIncr: a key that extends left.key sorts before cpIncr(left.key) and
+	// must not be skipped)
+	afterLeft := append(append(make([]byte, 0, len(left.key)+1), left.key...), 0x00)
 
 	// Traverse starting from afterLeft, until keyEnd or the next leaf
 	// after keyEnd.
